@@ -187,11 +187,21 @@ class Packet(_with_metaclass(bisturi.packet_builder.MetaPacket, object)):
         for name, f, pack, _ in self.get_fields():
             f.pack_regexp(self, fragments, stack=stack)
 
+    def _value_bearing_field_names(self):
+        # The pseudo-fields of at/shift/aligned (Move) and the empty
+        # placeholder (Em) have no value: their slot, if any, is never set
+        from bisturi.structural_fields import Move
+        from bisturi.field import Em
+        return [
+            name for name, f, _, _ in self.get_fields()
+            if not isinstance(f, (Move, Em))
+        ]
+
     def __eq__(self, other):
         if not isinstance(other, self.__class__):
             return False
 
-        for name, f, pack, _ in self.get_fields():
+        for name in self._value_bearing_field_names():
             if getattr(self, name) != getattr(other, name):
                 return False
 
@@ -207,7 +217,7 @@ class Packet(_with_metaclass(bisturi.packet_builder.MetaPacket, object)):
 
     def __repr__(self):
         msg = [f'{self.__class__.__name__}:']
-        for name, f, _, _ in self.get_fields():
+        for name in self._value_bearing_field_names():
             msg.append(f'  {name}: {getattr(self, name)}')
 
         return '\n'.join(msg)
